@@ -13,7 +13,7 @@ use crate::spec::Item;
 pub static DEF: PropDef = PropDef {
     id: "C14",
     level: "fault_enumeration",
-    rule: "each case: one valid known-size document (real writer or reference encoder) and, at EVERY tag boundary (offset of every element but the first; documents up to 60 elements, else 40 random boundaries), a junk run of length 1-40 drawn from bytes that are not the first byte of any id of the specification (computed per specification, runs of 0x00 included). The damaged stream is parsed strictly: next() until the first error, then try_recover(), then next() to the end. The precondition 'the tag after the junk still fits inside every enclosing known-size master after the shift' is evaluated from the layout. When it holds: items before the junk are unchanged, exactly one error is reported, try_recover() succeeds, and every remaining item equals the undamaged parse with offsets shifted by the junk length. In every case (also junk before the first tag / after the last one / precondition false): try_recover() does not panic or exceed its step budget, fails only with UnexpectedEOF or ReadError, and no item after recovery reports an offset before the position of the reported error. distinct = (depth of the boundary, junk length class, fits / does not fit, junk class); non-trivial iff the boundary is inside at least one master.",
+    rule: "each case: one valid known-size document (real writer or reference encoder) and, at EVERY tag boundary (offset of every element but the first; documents up to 60 elements, else 40 random boundaries), a junk run of length 1-40 drawn from bytes that are not the first byte of any id of the specification (computed per specification, runs of 0x00 included). The damaged stream is parsed with unknown ids never tolerated and the other two tolerance switches varied: next() until the first error, then try_recover(), then next() to the end. The precondition 'the tag after the junk still fits inside every enclosing known-size master after the shift' is evaluated from the layout. When it holds: items before the junk are unchanged, exactly one error is reported, try_recover() succeeds, and every remaining item equals the undamaged parse with offsets shifted by the junk length. In every case (also junk before the first tag / after the last one / precondition false): try_recover() does not panic or exceed its step budget, fails only with UnexpectedEOF or ReadError (also when called again and again after it reported end of input, interleaved with next()), and no item after recovery reports an offset before the position of the reported error. distinct = (depth of the boundary, junk length class, fits / does not fit, junk class); non-trivial iff the boundary is inside at least one master.",
     assumptions: &["layout of the valid document (reference decoder)", "junk bytes are chosen so that no position inside the junk can start a specification-valid tag"],
     cases_quick: 120_000,
     cases_thorough: 1_500_000,
@@ -41,7 +41,9 @@ fn run(c: &mut Case) {
     if junk_bytes.len() < 4 {
         return;
     }
-    let cfg = RCfg { allow: 0, buffered: vec![], capacity: *c.rng.pick(&[None, None, Some(16), Some(64)]), max_size: MaxSz::Set(Some(1 << 20)), eof_end: true };
+    // unknown ids are never tolerated here (junk would then be a valid raw tag); the other two switches are varied
+    let allow = *c.rng.pick(&[0u8, 0, crate::rd::ALLOW_OVERSIZE, crate::rd::ALLOW_HIER, crate::rd::ALLOW_HIER | crate::rd::ALLOW_OVERSIZE]);
+    let cfg = RCfg { allow, buffered: vec![], capacity: *c.rng.pick(&[None, None, Some(16), Some(64)]), max_size: MaxSz::Set(Some(1 << 20)), eof_end: true };
     let base = parse_slice(&inp.bytes, &RCfg { capacity: None, ..cfg.clone() });
     c.eval();
     if !base.clean() {
@@ -172,6 +174,28 @@ fn run(c: &mut Case) {
                 }
                 if fits {
                     c.violation(format!("C14/try_recover-failed/{}/depth{}", jclass, depth.min(4)), format!("try_recover() failed ({}) although the following tag fits", e.short()), wit("recovery failed with the precondition true", &before, &errors, &after, &recovered));
+                    continue;
+                }
+                // always-clause at the end of input: further try_recover()/next() calls must not panic and may only report end of input
+                for round in 0..3 {
+                    it.get_mut().begin_api_call();
+                    match recover_ev(&mut it, step_budget(len, before.len())) {
+                        Err(cg) => {
+                            c.violation(format!("C14/repeated-try_recover-{}", cg.sig()), format!("try_recover() call #{} after end of input {}", round + 2, cg.text()), wit("repeated try_recover at end of input", &before, &errors, &after, &recovered));
+                            break;
+                        }
+                        Ok(Err(e2)) if !matches!(e2, ErrRec::Eof { .. } | ErrRec::Read { .. }) => {
+                            c.violation(format!("C14/try_recover-error-kind/{}", e2.kind()), format!("repeated try_recover() failed with {}", e2.short()), wit("wrong error kind", &before, &errors, &after, &recovered));
+                            break;
+                        }
+                        _ => {}
+                    }
+                    it.get_mut().begin_api_call();
+                    if let Ev::Caught(cg) = next_ev(&mut it, step_budget(len, before.len())) {
+                        c.violation(format!("C14/next-after-failed-recovery-{}", cg.sig()), cg.text(), wit("next() after a failed try_recover", &before, &errors, &after, &recovered));
+                        break;
+                    }
+                    c.count("repeated_recover_rounds");
                 }
                 continue;
             }
